@@ -18,7 +18,9 @@ RULE = ("a case = (wait flag, control script over play/pause/resume/stop/close i
         "(f/h/i/b), channels (1/2), ragged lengths, the argument kind of the audio (list, tuple, generator, iterator, "
         "Stream, and instrumented sources whose every next() is a yield point so that players are pre-empted in "
         "mid-chunk), the call style (explicit keywords, defaults omitted, rate=, deprecated nchannels=) and iterables "
-        "that raise after k chunks; sample values include the extremes of every integer format (most negative / most "
+        "that raise after k chunks; audio also given as array.array (typecodes equal / unequal to the stream format), "
+        "deque, bytes, bytearray; a second family runs 2-3 managers alive at once (own players, closed in either order, "
+        "wait mixed) and requires the run as each manager saw it to be a run of its own model; sample values include the extremes of every integer format (most negative / most "
         "positive / 0 / -1) and non-integer float32 values; every close is reached through close / terminate / __exit__ / "
         "a with-block left normally or by an exception raised inside it; the backend records the open() parameters and, per write, the frame count and "
         "the buffer length; schedules are discovered on the IMPLEMENTATION: all schedules with <= 2 pre-emptions (<= 1 "
@@ -56,7 +58,8 @@ def follow(prefix, after=default_choice):
 
 def preemptions(steps):
   n, prev = 0, 0
-  for t, _, en in steps:
+  for st_ in steps:
+    t, en = st_[0], st_[2]
     if t != prev and prev in en:
       n += 1
     prev = t
@@ -221,6 +224,25 @@ def src_configs(tier):
   return out
 
 
+def kind_cases():
+  """(kind, dfmt, samples): every combination the implementation can play (integers pack into every
+  format; float arrays only into the float format; float samples are played as v / 8)"""
+  out = []
+  small = [-100, 100, 0, -1, 7, 64, 3]                 # fits every integer typecode and format
+  for tc in ("b", "h", "i", "l", "q", "B", "H", "I", "L"):
+    vals = [abs(v) for v in small] if tc.isupper() else small
+    for fmt in ("f", "h", "i", "b"):
+      out.append(("arr_" + tc, fmt, [8 * v for v in vals] if fmt == "f" else vals))
+  for tc in ("f", "d"):
+    out.append(("arr_" + tc, "f", [-(2 ** 20 + 1), 2 ** 20 + 1, 0, -1, 3, -5, 12]))
+  for fmt in ("f", "h", "i", "b"):
+    out.append(("deque", fmt, extreme_audio(fmt, 5)))
+    byt = [0, 100, 1, 127, 64]
+    out.append(("bytes", fmt, [8 * v for v in byt] if fmt == "f" else byt))
+    out.append(("bytearray", fmt, [8 * v for v in byt] if fmt == "f" else byt))
+  return out
+
+
 def gen_sched(tier, rng):
   seen = set()
   _abnormal[0] = False
@@ -263,6 +285,18 @@ def gen_sched(tier, rng):
     c = emit(True, script, sched, ["nchannels=%d" % ch])
     if c:
       yield c
+  # argument kinds of the audio: array.array with a typecode equal / unequal to the stream format, deque,
+  # bytes-like; the delivered bytes must decode (with the format of the stream) to the played samples
+  for kind, fmt, vals in kind_cases():
+    for size, channels in ((2, 1), (1, 2)) if tier != "quick" else ((2, 1),):
+      script = [["play", size, channels, vals, fmt, kind, "kw"], ["close"]]
+      for pswitch in ((0.3,) if tier == "quick" else (0.0, 0.5)):
+        sched = random_walk(True, script, rng, pswitch)
+        c = emit(True, script, sched, ["kind " + kind, "fmt " + fmt])
+        if c:
+          yield c
+        if _abnormal[0]:
+          return
   # seeded random walks over bigger configurations
   n = 400 if tier == "quick" else 4000
   for _ in range(n):
@@ -356,10 +390,14 @@ def lit_chunk(ch):
 def lit_case(c, o):
   fin = o.get("final") or {"players": [], "finished": False, "hlock": False, "mlock": False, "threads": [],
                            "started": [], "terminated": 0, "pending": []}
+  if "players" not in fin:          # the snapshot itself failed (harness error kept visible)
+    fin = {"players": [], "finished": False, "hlock": False, "mlock": False, "threads": [], "started": [],
+           "terminated": 0, "pending": []}
+    o = dict(o); o["status"] = "snapshot_error"; o["events"] = []
   status = {"completed": 0, "deadlock": 1}.get(o.get("status"), 3)
   if "raise" in o or "exception" in o:
     status = 3
-  steps = L.lst(["(%d, %d, %s)" % (t, op, L.lst([str(x) for x in en])) for t, op, en in o.get("steps", [])])
+  steps = L.lst(["(%d, %d, %s)" % (st_[0], st_[1], L.lst([str(x) for x in st_[2]])) for st_ in o.get("steps", [])])
   evs = []
   for e in o.get("events", []):
     k = e[0]
@@ -407,10 +445,105 @@ def nontrivial(c, o):
   return ctl >= 1 and preemptions(o.get("steps", [])) >= 1
 
 
+# ---------------------------------------------------------------------------- several managers at once
+def tag_cmds(m, cmds):
+  return [["@", m, c] for c in cmds]
+
+
+def multi_configs(tier):
+  """(waits, script, bound, tag): two or three managers alive at the same time, each with its own players,
+  closed in either order, wait true / false mixed"""
+  out = []
+  for waits in ([True, False], [False, True], [True, True], [False, False]):
+    for order in ("BA", "AB"):
+      for ctl in ([], [["pause", 0]]):
+        if tier == "quick" and ctl and waits[0] == waits[1]:
+          continue
+        a = tag_cmds(0, [["play", 2, 1, [1, 2, 3, 4, 5], "f"]] + ctl)
+        b = tag_cmds(1, [["play", 2, 1, [105, 106, 107], "h"]])
+        closes = tag_cmds(1, [["close"]]) + tag_cmds(0, [["close", "with"]])
+        if order == "AB":
+          closes = closes[::-1]
+        out.append((waits, a + b + closes, 1, "2 managers %s ctl=%d" % (order, len(ctl))))
+  if tier != "quick":
+    s3 = (tag_cmds(0, [["play", 2, 1, [1, 2, 3], "f"]]) + tag_cmds(1, [["play", 1, 2, [5, 6, 7, 8], "i"]])
+          + tag_cmds(2, [["play", 2, 1, [9, 10, 11, 12], "f", "src"]]) + tag_cmds(1, [["close"]])
+          + tag_cmds(0, [["play", 2, 1, [21, 22], "f"]]) + tag_cmds(2, [["close", "exc"]]) + tag_cmds(0, [["close"]]))
+    out.append(([True, False, True], s3, 1, "3 managers"))
+  return out
+
+
+def gen_multi(tier, rng):
+  _abnormal[0] = False
+  for waits, script, bound, tag in multi_configs(tier):
+    scheds, complete = explore(waits, script, bound, 400 if tier == "quick" else 3000)
+    if tier == "quick" and len(scheds) > 25:
+      scheds = [scheds[0]] + rng.sample(scheds[1:], 24)
+    for sc in scheds:
+      yield {"waits": waits, "script": script, "sched": sc, "tags": [tag, "multi"]}
+    if _abnormal[0]:
+      return
+  for _ in range(40 if tier == "quick" else 800):
+    nm = rng.choice([2, 2, 3])
+    waits = [rng.random() < 0.5 for _m in range(nm)]
+    script = []
+    for m in range(nm):
+      for k in range(rng.choice([1, 1, 2])):
+        fmt = rng.choice(["f", "h", "i", "b"])
+        cmd = with_format(play(3 * m + k, rng.randrange(0, 4), rng.choice([1, 2]), rng.choice([1, 2]), rng.random() < 0.5),
+                          fmt, rng)
+        script.insert(rng.randrange(len(script) + 1), ["@", m, cmd])
+    for _k in range(rng.randrange(0, 4)):
+      m = rng.randrange(nm)
+      script.insert(rng.randrange(1, len(script) + 1), ["@", m, [rng.choice(["pause", "resume", "stop"]), rng.randrange(2)]])
+    order = list(range(nm))
+    rng.shuffle(order)
+    for m in order:
+      if rng.random() < 0.9:
+        script.append(["@", m, ["close", rng.choice(VIAS)]])
+    strategy = rng.choice(["struct", "array"])
+    sched = random_walk(waits, script, rng, rng.choice([0.05, 0.3, 0.7]), strategy)
+    yield {"waits": waits, "script": script, "sched": sched, "strategy": strategy,
+           "tags": ["multi random", "nm=%d" % nm]}
+    if _abnormal[0]:
+      return
+
+
+def run_multi(c):
+  def once():
+    return S.run_schedule(c["waits"], c["script"], follow(c["sched"], None), max_steps=MAX_STEPS + 50,
+                          strategy=c.get("strategy", "struct"))
+  obs = once()
+  for _ in range(2):
+    if obs.get("status") != "hang":
+      break
+    obs = once()
+  return obs
+
+
+def lit_multi(c, o):
+  lits = []
+  for m, w in enumerate(c["waits"]):
+    cm = {"wait": w, "script": [x[2] for x in c["script"] if x[0] == "@" and x[1] == m]}
+    pr = (o.get("mgrs") or [None] * len(c["waits"]))[m] if "mgrs" in o else None
+    if pr is None:      # the run did not produce projections (time-out, harness error): visible as a mismatch
+      pr = {"status": "hang", "steps": [], "events": [], "final": None}
+    if "raise" in o or "exception" in o:
+      pr = dict(pr); pr["status"] = "exception"
+    lits.append(lit_case(cm, pr))
+  return L.lst(lits)
+
+
+def nontrivial_multi(c, o):
+  return preemptions(o.get("steps", [])) >= 1
+
+
 IMPORTS = "From AL Require Import C17.Model C17.Spec C17.Check."
 PRE = "Open Scope nat_scope."
 
 FAMILIES = {
   "sched": Family("sched", IMPORTS, "scase", "corr_sched", "holds_sched", gen_sched, run_sched, lit_case,
                   nontrivial, None, timeout=150, preamble=PRE),
+  "multi": Family("multi", IMPORTS, "list scase", "corr_multi", "holds_multi", gen_multi, run_multi, lit_multi,
+                  nontrivial_multi, None, timeout=150, preamble=PRE),
 }
